@@ -22,7 +22,8 @@ import (
 
 var vClassText = map[string]string{"slash": "/", "backslash": "\\", "tab": "\t", "cr": "\r", "lf": "\n", "ctl": "\x01",
 	"host": "evil.example.net", "colon": ":", "at": "@", "pctslash": "%2f", "dot": ".", "qmark": "?", "hash": "#",
-	"space": " ", "pcttab": "%09", "own_show": "showAuthToken", "own_send": "sendAuthDocument"}
+	"space": " ", "pcttab": "%09", "own_show": "showAuthToken", "own_send": "sendAuthDocument",
+	"https": "https", "ownhost": vHost, "port443": "443"}
 
 func vRenderClasses(cl []string) string {
 	var sb strings.Builder
